@@ -34,7 +34,9 @@ Prods == [
                   <<"<stmt:INSERT", "with", "Ctes", "Insert", ">stmt">>,
                   <<"<stmt:DROP", "drop", "table", "<idx", "Ref", ">idx", ">stmt">>,
                   <<"<stmt:UNKNOWN", "<par", "lp", "Select", "rp", ">par", ">stmt">>,      \* a parenthesised query as a statement
-                  <<"<stmt:SELECT", "Select", ">stmt">> >>,
+                  <<"<stmt:SELECT", "Select", ">stmt">>,
+                  \* set operations between two queries that both have a WHERE (the budget rarely reaches SetOpt at the end of Select)
+                  <<"<stmt:SELECT", "select", "star", "from", "<id", "Ref", ">id", "<where", "where", "Cond", ">where", "setop", "Select", ">stmt">> >>,
   Select   |-> << <<"select", "ItemsL", "FromOpt", "WhereOpt", "GroupOpt", "HavingOpt", "OrderOpt", "LimitOpt", "SetOpt">>,
                   <<"select", "distinct", "ItemsL", "FromOpt", "WhereOpt", "GroupOpt", "HavingOpt", "OrderOpt", "LimitOpt", "SetOpt">> >>,
   ItemsL   |-> << <<"<list", "Items", ">list">> >>,
